@@ -8,7 +8,8 @@ PROP = "C18"
 CHECK_MODULE = "Check.C18"
 COQ_IMPORTS = "Model.Timeline"
 SHARD = 300
-RULE = ("timelines with bounds on even ticks (so that half-grid time points exist), every tick t from below the "
+RULE = ("[also: nan, +-inf, open-ended segments] " +
+        "timelines with bounds on even ticks (so that half-grid time points exist), every tick t from below the "
         "first bound to above the last: all timelines of <=3 (quick) / <=4 (thorough) segments on a 6-point grid, "
         "plus random timelines of up to 12 segments; regimes K0/K4/K1; also every quarter tick within one tick "
         "of a bound (off the rounding grid of K1, where a probe Segment(t, t) would be rounded); time points no double holds (exact rationals a hair beside every bound, integer nanosecond timelines beyond 2^53) compared exactly in the driver; copies translated 2 h, 28 h, 3 d or -8 h 20 min from the origin; non-trivial = "
